@@ -14,6 +14,12 @@ from . import core, fd
 F = Fraction
 
 
+try:
+    import flowdyn.modelphy.base as _realbase
+    _RealModelBase = _realbase.model
+except Exception:          # pragma: no cover
+    _RealModelBase = object
+
 class TableFlux:
     """deterministic generic dyadic function of (pL, pR[, axis]); antisym twin: G(a, b) = -F(b, a)"""
 
@@ -43,11 +49,16 @@ class TableFlux:
         return out
 
 
-class TableModel:
+class TableModel(_RealModelBase):
     """scalar model (prim = cons) with a TableFlux; BCs: dirichlet (from base), 'copy' (zero gradient);
-    optional source list; records every numflux call"""
+    optional source list; records every numflux call.  It DERIVES from flowdyn's own base model, as a user's model does: whatever
+    default the library adds to (or asks of) the base class is inherited, so a refactoring of the protocol does not break the fake"""
 
     def __init__(self, flux, source=None, dt_speed=1.0):
+        try:
+            _RealModelBase.__init__(self, name="table", neq=1)
+        except Exception:
+            pass
         self.neq = 1
         self.shape = [1]
         self.islinear = 0
@@ -66,7 +77,7 @@ class TableModel:
     def prim2cons(self, p):
         return [1 * d for d in p]
 
-    def numflux(self, name, pL, pR, dir=None):
+    def numflux(self, name, pL, pR, dir=None, **_kw):
         axis = None
         if dir is not None:
             axis = np.asarray(dir)[1]      # 0 for x faces, 1 for y faces
@@ -74,14 +85,14 @@ class TableModel:
         self.calls.append(([p.copy() for p in pL], [p.copy() for p in pR], [fl.copy()]))
         return [fl]
 
-    def namedBC(self, name, dir, data, param):
+    def namedBC(self, name, dir, data, param, **_kw):
         if name == "dirichlet":
             return param["prim"]
         if name == "copy":
             return [1 * d for d in data]
         raise KeyError(name)
 
-    def timestep(self, data, dx, condition):
+    def timestep(self, data, dx, condition, **_kw):
         return condition * dx / self.dt_speed + 0 * data[0]
 
     def nameddata(self, name, data):
